@@ -49,7 +49,8 @@ func MergeRects(rects []Rect) Polygon {
 	lps = append(lps, P{prev.TL.X, prev.BR.Y})
 	rps = append(rps, prev.BR)
 
-	points := make([]P, np*2)
+	// consecutive rectangles with a common left or right side contribute one vertex less
+	points := make([]P, len(lps)+len(rps))
 	i := 0
 	for i < len(lps) {
 		points[i] = lps[i]
